@@ -310,7 +310,7 @@ def _check(run, only_case, facts0, voc, fixed_names, quick, procs, parent):
         for c in corpus:
             groups.append({'id': gid, 'cases': [dict(c['case'], role='corpus', word=c['file'])], 'role': 'corpus', 'kind': 'corpus', 'corpus': c})
             gid += 1
-        bases, info = base_programs(run, 40 if quick else 120, 40 if quick else 120, 8 if quick else 12)
+        bases, info = base_programs(run, 40 if quick else 160, 40 if quick else 160, 8 if quick else 12)
         run.cov['skeleton_space'] = info
         base_cases = []
         for b in bases:
@@ -320,7 +320,7 @@ def _check(run, only_case, facts0, voc, fixed_names, quick, procs, parent):
         for k in range(0, len(base_cases), 4):
             groups.append({'id': gid, 'cases': base_cases[k:k + 4], 'role': 'base', 'kind': 'base'})
             gid += 1
-        adv = build_groups(run, bases, voc, 1 if quick else 3)
+        adv = build_groups(run, bases, voc, 1 if quick else 4)
         # lambda entities (visit_Lambda / lscope / ag__lam): fixed templates, every vocabulary word
         lam_words = sorted(set(voc) | {'ag__lam', 'ag__lam_1', 'lscope_1'})
         for kind in sorted(N.LAMBDA_TEMPLATES):
@@ -420,8 +420,12 @@ def _check(run, only_case, facts0, voc, fixed_names, quick, procs, parent):
             run.notes.append('listed finding %s: witness no longer fails in its class (%r) - class not honoured in this run'
                              % (k['id'], [(f[0][:60], f[1]) for f in fails]))
 
+    brief = []
+
     def fail(what, case, cls):
         run.fail(what, case, cls if cls in active else None)
+        if len(brief) < 600:
+            brief.append([case.get('role'), case.get('word'), cls, what[:70]])
         stats['classes'][cls or 'UNCLASSIFIED'] = stats['classes'].get(cls or 'UNCLASSIFIED', 0) + 1
 
     for g in groups:
@@ -518,6 +522,7 @@ def _check(run, only_case, facts0, voc, fixed_names, quick, procs, parent):
     for rs in stats['roles'].values():
         rs['words'] = len(rs['words'])
     run.cov['role_word_pairs_covered'] = pairs_total
+    run.cov['failing_cases_brief'] = sorted(brief, key=lambda b: (str(b[0]), str(b[1])))
     run.cov['exhaustive'] = False       # every (role, word) pair is used at least once per sweep; programs and positions are sampled
     run.cov.update({'roles': stats['roles'], 'failing_by_class': stats['classes'], 'control_failed_groups': stats['control_failed_groups'],
                     'variants_not_loadable': stats['variants_not_loadable'], 'base_differential_mismatch_C01': stats['base_differential_mismatch'],
